@@ -75,6 +75,7 @@ uint8_t* vp_map(size_t n)
     return (uint8_t*)p;
 }
 void vp_unmap(uint8_t* p, size_t n) { if (p) sys3(91, (long)p, (long)((n + 4095) & ~(size_t)4095), 0); }
+uint8_t* vp_map_at(uint64_t addr, size_t n) { (void)addr; (void)n; return 0; }      /* no 4 GiB boundary inside a 32-bit address space */
 void vp_readonly(uint8_t* page, size_t n, int on) { sys3(125, (long)page, (long)((n + 4095) & ~(size_t)4095), on ? 1 : 3); }   /* mprotect: a store then kills the process (reported as a signal) */
 uint8_t* vp_guard_end(size_t n) { return vp_map(n + 4096); }
 uint8_t* vp_guard_begin(size_t n) { return vp_map(n + 4096); }
